@@ -16,6 +16,8 @@ const (
 	sigError     = 3
 	sigLookahead = 4
 	sigPartition = 5
+	sigPinned    = 6
+	sigFinal     = 7
 )
 
 func computeRuleClasses(t *Tables, g *Grammar) []int {
@@ -56,11 +58,17 @@ func computeRuleClasses(t *Tables, g *Grammar) []int {
 	return ruleClass
 }
 
-func partitionStatesByAction(t *Tables, ruleClass []int, numStates int) ([]int, *container.IntSliceSet) {
+func partitionStatesByAction(t *Tables, g *Grammar, ruleClass []int, numStates int) ([]int, *container.IntSliceSet) {
 	// Initial partitions based on reductions and actions
 	// Signature of a state:
 	//    Action[s], plus LALR entries substituting rule -> ruleClass
-	stateSignature := func(s int) []int {
+	// Entry states are addressed by their index, so they cannot be merged with any other state.
+	// Reaching a final state stops the parser, so final states can be merged only with each other.
+	final := make(map[int]bool)
+	for _, s := range t.FinalStates {
+		final[s] = true
+	}
+	actionSignature := func(s int) []int {
 		act := t.Action[s]
 		if act >= 0 {
 			return []int{sigReduce, ruleClass[act]}
@@ -92,6 +100,16 @@ func partitionStatesByAction(t *Tables, ruleClass []int, numStates int) ([]int, 
 			sigParts = append(sigParts, term, rule)
 		}
 		return sigParts
+	}
+	stateSignature := func(s int) []int {
+		if s < len(g.Inputs) {
+			return []int{sigPinned, s}
+		}
+		sig := actionSignature(s)
+		if final[s] {
+			sig = append([]int{sigFinal}, sig...)
+		}
+		return sig
 	}
 
 	partition := make([]int, numStates)
@@ -159,7 +177,7 @@ func refinePartitions(partition []int, partitions *container.IntSliceSet, t *Tab
 func minimize(t *Tables, g *Grammar) {
 	numStates := t.NumStates
 	ruleClass := computeRuleClasses(t, g)
-	partition, partitions := partitionStatesByAction(t, ruleClass, numStates)
+	partition, partitions := partitionStatesByAction(t, g, ruleClass, numStates)
 	partition, partitions = refinePartitions(partition, partitions, t)
 
 	if partitions.Len() == numStates {
